@@ -140,6 +140,13 @@ CHECKS = {
         "Binary files of the current version only; library files that do not load are C18's concern.",
         "5/C16",
     ),
+    "C18": (
+        "exploration",
+        "exhaustive single-rule mutation: every catalogue rule applied at every applicable site of generated and atomica-written workbooks, each with a known verdict, against the real readers; all generated and library files must load, give a blank databook that reads back and run",
+        "Valid files in two writer styles (atomica's and an independent user-style writer) and every library file are loaded and run; each catalogue rule (delete required sheet/column, blank optional column, undefined / duplicate / reserved names, wrong units, self-referencing / cyclic / unsupported / malformed functions, un-nested cascade, timed-parameter misuse, missing population data, unit mismatch, unknown populations / parameters / programs, missing unit cost) is broken at every site where it can be broken and the reader must answer with the dedicated error (reject) or still load and run (accept).",
+        "Validator totality is approached by the catalogue x all sites, not decided for arbitrary bytes; verdicts come from the catalogue.",
+        "5/C18",
+    ),
 }
 
 PENDING_REASON = "check not built yet in this session (see DESIGN.md section 8 for the build order); no claim is made"
